@@ -129,7 +129,31 @@ func checkC20(c *Ctx) (string, []string) {
 		c.Check(bad == "", "C20.shuffle", S+"DeserializeFixedLength", des.Pos(), "bit 8k+j of the value is bit j of byte k, for 0..8 symbolic bytes", "DeserializeFixedLength is not the little-endian value of its bytes: "+bad)
 	}
 	c20FisherYates(c, fy)
-	c.checkShapes("C20.shuffle", S+"Shuffle", sh, abbrMap(returnShapes(sh)), map[string][]string{"ret": {"shuffle.FisherYatesShuffle(p0, shuffle.numericSequenceFromHash(p1, u32(len(p0))))"}})
+	{
+		// Shuffle(s, h) = F(s, Q(h, |s|)); a return of an empty sequence is the same value where |s| = 0 is established
+		want := "shuffle.FisherYatesShuffle(p0, shuffle.numericSequenceFromHash(p1, u32(len(p0))))"
+		var lenZero []edge
+		if len(sh.Params) > 0 {
+			lenZero = lenZeroEdges(sh, sh.Params[0])
+		}
+		n, bad := 0, ""
+		allInstrs(sh, func(in ssa.Instruction) {
+			r, isR := in.(*ssa.Return)
+			if !isR || len(retResults(r)) != 1 {
+				return
+			}
+			v := retResults(r)[0]
+			g := abbr(exprStr(v, shapeOpts))
+			switch {
+			case looseForm(g) == want:
+				n++
+			case isEmptySliceValue(v) && guardedBy(sh, in, lenZero):
+			default:
+				bad = g
+			}
+		})
+		c.Check(n > 0 && bad == "", "C20.shuffle", S+"Shuffle · ret", sh.Pos(), "returns F(s, Q(h, |s|)) (an empty sequence only where |s| = 0)", "ret is derived as ["+bad+"]; the specification requires ["+want+"]")
+	}
 
 	c.Rule("C20.determinism", "the call trees of Shuffle and NewGuranatorAssignments contain no map iteration, randomness, clock or goroutine, read no package-level variable other than protocol parameters and write none; because FisherYatesShuffle permutes its input in place, every caller of Shuffle/FisherYatesShuffle in the module passes a slice it has just made", 6)
 	allowedGlobals := map[string]bool{"ValidatorsCount": true, "CoresCount": true, "EpochLength": true, "RotationPeriod": true}
@@ -314,12 +338,25 @@ func checkC20(c *Ctx) (string, []string) {
 		"ret.CoreAssignments": {"internal/extrinsic.permute(p0, p1)"}, "ret.PublicKeys": {"make([]types.Validator, len(internal/safrole.ReplaceOffenderKeys(p2)))"},
 	})
 	N := "internal/extrinsic.NewGuranatorAssignments("
-	c.checkShapes("C20.assignment", extrPkg+".GFunc", gf, abbrMap(returnShapes(gf)), map[string][]string{
+	// compared up to the local cell a value is copied into (an array result indexed directly or through a variable)
+	withUncelled := func(m map[string][]string) map[string][]string {
+		out := map[string][]string{}
+		for k, vs := range m {
+			for _, v := range vs {
+				out[k] = append(out[k], v)
+				if u := c33Loose(v); u != v && k == "ret#0" {
+					out[k] = append(out[k], u)
+				}
+			}
+		}
+		return out
+	}
+	c.checkShapes("C20.assignment", extrPkg+".GFunc", gf, abbrMap(returnShapes(gf)), withUncelled(map[string][]string{
 		"ret#0": {N + "cell(post.GetEta(POST))[2], post.GetTau(POST), post.GetKappa(POST))", "nil"}, "ret#1": {"cell(23)", "nil"},
-	})
-	c.checkShapes("C20.assignment", extrPkg+".GStarFunc", gs, abbrMap(returnShapes(gs)), map[string][]string{
+	}))
+	c.checkShapes("C20.assignment", extrPkg+".GStarFunc", gs, abbrMap(returnShapes(gs)), withUncelled(map[string][]string{
 		"ret#0": {N + "phi(cell(post.GetEta(POST))[2] | cell(post.GetEta(POST))[3]), (post.GetTau(POST) - u32(types.RotationPeriod)), phi(post.GetKappa(POST) | post.GetLambda(POST)))", "nil"}, "ret#1": {"cell(23)", "nil"},
-	})
+	}))
 	{
 		// the (η2, κ) arm is the same-epoch arm
 		same := condEdges(gs, func(v ssa.Value) (bool, bool) {
@@ -817,4 +854,77 @@ func c20FisherYates(c *Ctx, f *ssa.Function) {
 		}
 	}
 	c.Check(okE, "C20.shuffle", key+" · empty", f.Pos(), "an empty sequence gives an empty (non-nil) result", fmt.Sprintf("the result for the empty sequence is %v", rs))
+}
+
+func mapShapes(m map[string][]string, f func(string) string) map[string][]string {
+	out := map[string][]string{}
+	for k, vs := range m {
+		for _, v := range vs {
+			out[k] = append(out[k], f(v))
+		}
+	}
+	return out
+}
+
+// lenZeroEdges: the conditional edges of f on which len(p) = 0 is established (a comparison of len(p) with a
+// constant whose solution set among lengths is exactly {0}).
+func lenZeroEdges(f *ssa.Function, p ssa.Value) []edge {
+	isLen := func(v ssa.Value) bool {
+		call, ok := stripConv(v).(*ssa.Call)
+		if !ok {
+			return false
+		}
+		b, isB := call.Call.Value.(*ssa.Builtin)
+		return isB && b.Name() == "len" && len(call.Call.Args) == 1 && resolveLocal(stripConv(call.Call.Args[0])) == p
+	}
+	return condEdges(f, func(v ssa.Value) (bool, bool) {
+		b, ok := v.(*ssa.BinOp)
+		if !ok {
+			return false, false
+		}
+		op, x, y := b.Op, b.X, b.Y
+		if isLen(y) {
+			x, y = y, x
+			op = map[token.Token]token.Token{token.LSS: token.GTR, token.GTR: token.LSS, token.LEQ: token.GEQ, token.GEQ: token.LEQ, token.EQL: token.EQL, token.NEQ: token.NEQ}[op]
+		}
+		k, isC := constInt(y)
+		if !isLen(x) || !isC {
+			return false, false
+		}
+		switch {
+		case op == token.EQL && k == 0, op == token.LEQ && k == 0, op == token.LSS && k == 1:
+			return true, true
+		case op == token.NEQ && k == 0, op == token.GTR && k == 0, op == token.GEQ && k == 1:
+			return true, false
+		}
+		return false, false
+	})
+}
+
+// isEmptySliceValue: a slice of length 0 (nil, make(T, 0), x[:0] / x[k:k]).
+func isEmptySliceValue(v ssa.Value) bool {
+	switch x := stripConv(v).(type) {
+	case *ssa.Const:
+		return x.Value == nil
+	case *ssa.MakeSlice:
+		k, ok := constInt(x.Len)
+		return ok && k == 0
+	case *ssa.Slice:
+		if x.High != nil {
+			h, ok := constInt(x.High)
+			if ok && h == 0 {
+				return true
+			}
+			if x.Low != nil {
+				l, okl := constInt(x.Low)
+				return ok && okl && l == h
+			}
+		}
+		if a, ok := x.X.(*ssa.Alloc); ok {
+			if at, isArr := derefType(a.Type()).Underlying().(*types.Array); isArr && at.Len() == 0 {
+				return true
+			}
+		}
+	}
+	return false
 }
